@@ -14,6 +14,7 @@ Definition frag_node (ns : list node) (n : node) : bool :=
   match n_setup n with [] => true | _ => false end &&
   negb (nkind_beq (n_kind n) KBranch) &&
   Nat.eqb (n_level n) (lvl_of (n_kind n)) &&
+  Nat.leb (length (n_children n)) 1 &&      (* steps are chained by `next`, acts of a step too: one task at a time under a parent *)
   (if nkind_beq (n_kind n) KAct then match sp_u (n_spec n) with UIrq => true | _ => false end && match n_children n with [] => true | _ => false end else true) &&
   forallb (fun kc => okind_beq (fst kc) ONormal && Nat.ltb (snd kc) (length ns) &&
                      nkind_beq (n_kind (nth (snd kc) ns dnode)) (child_kind (n_kind n))) (n_children n) &&
